@@ -197,7 +197,22 @@ pub fn run_codecs(case: &Value, _seed: u64) -> Outcome {
     let mut o = Outcome::default();
     o.key = case.to_string();
     let kw = case["kw"].as_str().unwrap_or("");
-    if case["k"] == "value" { return o; }
+    if case["k"] == "value" {
+        // record / location values: their text form, and that text with each ASCII blank replaced - one at a time and
+        // all at once - by a tab and by Unicode blanks (U+00A0, U+2003, U+3000: multi-byte, `char::is_whitespace`)
+        let t = match super::codecs::value_text(case) { Some(t) => t, None => return o };
+        o.nontrivial = true;
+        let feats = vec![format!("value_of:{}", case["ty"].as_str().unwrap_or(""))];
+        let mut texts = vec![t.clone()];
+        let blanks: Vec<usize> = t.char_indices().filter(|(_, c)| *c == ' ').map(|(i, _)| i).collect();
+        for sub in ['\t', '\u{a0}', '\u{2003}', '\u{3000}'] {
+            for &i in blanks.iter() { let mut m = t.clone(); m.replace_range(i..i + 1, &sub.to_string()); texts.push(m); }
+            if blanks.len() > 1 { texts.push(t.replace(' ', &sub.to_string())); }
+        }
+        for x in texts { feed_all(&mut o, &x, &feats); feed_templates(&mut o, &x, &feats); }
+        o.sample = json!({"value": t, "calls": o.evals});
+        return o;
+    }
     o.nontrivial = true;
     let feats = vec![format!("keyword_of:{}", case["ty"].as_str().unwrap_or(""))];
     for t in [kw.to_string(), format!("{}, ", kw), format!("{},", kw), format!("{}, x", kw), format!("{}:", kw), format!("{}:x", kw), format!(" {}", kw), format!("{} -b", kw), format!("{} [", kw)] {
